@@ -496,9 +496,41 @@ func (g *GenPkg) fillMsg(m *Msg) {
 		g.Problems = append(g.Problems, fmt.Sprintf("%s: no ProtoMethods", m.GoName))
 		return
 	}
+	// `return pkgVar` where a generated file declares `var pkgVar = func() *protoiface.Methods { … }()`: the value is
+	// built once, by that function literal (GlobalWrites reports any other write to a generated package variable)
+	body := pm.Body
+	if len(body.List) == 1 {
+		if rs, ok := body.List[0].(*ast.ReturnStmt); ok && len(rs.Results) == 1 {
+			if id, ok := ast.Unparen(rs.Results[0]).(*ast.Ident); ok {
+				if v, ok := g.Info.Uses[id].(*types.Var); ok && v.Parent() == g.Types.Scope() {
+					for _, f := range g.Files {
+						for _, d := range f.Decls {
+							gd, ok := d.(*ast.GenDecl)
+							if !ok || gd.Tok != token.VAR {
+								continue
+							}
+							for _, sp := range gd.Specs {
+								vs := sp.(*ast.ValueSpec)
+								for i, nm := range vs.Names {
+									if g.Info.Defs[nm] != v || len(vs.Values) != len(vs.Names) {
+										continue
+									}
+									if call, ok := ast.Unparen(vs.Values[i]).(*ast.CallExpr); ok && len(call.Args) == 0 {
+										if fl, ok := ast.Unparen(call.Fun).(*ast.FuncLit); ok {
+											body = fl.Body
+										}
+									}
+								}
+							}
+						}
+					}
+				}
+			}
+		}
+	}
 	// closures: ident -> FuncLit
 	lits := map[types.Object]*ast.FuncLit{}
-	for _, s := range pm.Body.List {
+	for _, s := range body.List {
 		if as, ok := s.(*ast.AssignStmt); ok && as.Tok == token.DEFINE && len(as.Lhs) == 1 && len(as.Rhs) == 1 {
 			if id, ok := as.Lhs[0].(*ast.Ident); ok {
 				if fl, ok := as.Rhs[0].(*ast.FuncLit); ok {
@@ -536,7 +568,7 @@ func (g *GenPkg) fillMsg(m *Msg) {
 	}
 	var sv types.Object // the local holding the Methods value
 	svPtr := false
-	for _, st := range pm.Body.List {
+	for _, st := range body.List {
 		switch t := st.(type) {
 		case *ast.AssignStmt:
 			if t.Tok == token.DEFINE && len(t.Lhs) == 1 && len(t.Rhs) == 1 {
@@ -595,14 +627,14 @@ func (g *GenPkg) fillMsg(m *Msg) {
 	// the local must not be used in any other way (passed on, re-assigned, written in a nested block)
 	if sv != nil {
 		uses := 0
-		ast.Inspect(pm.Body, func(n ast.Node) bool {
+		ast.Inspect(body, func(n ast.Node) bool {
 			if id, ok := n.(*ast.Ident); ok && g.Info.Uses[id] == sv {
 				uses++
 			}
 			return true
 		})
 		top := 0
-		for _, st := range pm.Body.List {
+		for _, st := range body.List {
 			switch t := st.(type) {
 			case *ast.AssignStmt:
 				if t.Tok == token.ASSIGN && len(t.Lhs) == 1 {
